@@ -70,7 +70,7 @@ ASSUMPTIONS = [
     'observed through a recording subclass of the predictive model (public interface)']
 REQUIRED = ['indiv', 'hier', 'filter', 'kind:gauss', 'kind:lognorm', 'kind:trunc', 'kind:pooled', 'kind:hetero',
             'noncentered', 'cov', 'cov_pooled', 'red', 'comp', 'bare', 'ids:unsorted', 'ids:default', 'stat',
-            'tight', 'wide', 'chains=1', 'draws=1', 'n_ids=1', 'param_map_swap']
+            'tight', 'wide', 'chains=1', 'draws=1', 'n_ids=1', 'param_map_swap', 'second_individual']
 
 UNSORTED_IDS = ['id-e', 'id-b', 'id-d', 'id-a', 'id-c']
 SAMPLERS = {'haario': 'HaarioBardenetACMC', 'metropolis': 'MetropolisRandomWalkMCMC'}
@@ -985,6 +985,7 @@ def _check_downstream(case, s, P, L, ctrl):
     # The dataset may store two parameters under each other's MODEL names (the user's param_map says so): variable
     # b holds the draws of model parameter a and vice versa.
     ds_pop = ds
+    pmap_before_swap = dict(plan['pmap'])
     own = [n for n in plan['names'] if n not in plan['pmap']]
     if s.get('pp_swap') and len(own) >= 2:
         a, b = own[0], own[-1]
@@ -1049,6 +1050,24 @@ def _check_downstream(case, s, P, L, ctrl):
                     break
             case.true(ok, 'sample %d (%r) is not within 12 sd of the model output of any (chain, draw) row of the '
                       'columns %s' % (sid, y.tolist(), [_what(L, c) for c in cols]))
+
+    # ---- the same posterior predictive model asked for ANOTHER individual afterwards
+    if plan['label'] is not None and L.bottom and 'predictive_individual' in case.checked and s['kind'] != 'indiv':
+        plan2 = _downstream_plan(dict(s, pick=s['pick'] + 1), L)
+        if plan2['label'] != plan['label'] and plan2['names'] == plan['names'] and plan2['pmap'] == pmap_before_swap \
+                and plan2['fix'] == plan['fix']:
+            with case.clause('predictive_second_individual'):
+                case.labels.append('second_individual')
+                pm.__dict__['seen'] = []
+                ppm.sample(times, n_samples=s['pp_n'], seed=s['pp_seed'] + 1, individual=plan2['label'])
+                flat2 = raw[:, :, plan2['cols']].reshape(-1, len(plan2['cols']))
+                for q, v in enumerate(pm.__dict__.get('seen', [])):
+                    hit = any(v.shape == r.shape and np.array_equal(v, r) for r in flat2)
+                    first = any(v.shape == r.shape and np.array_equal(v, r) for r in flat)
+                    case.true(hit, 'second call (individual %r after %r on the same model): draw %d handed to the '
+                              'predictive model is no (chain, draw) row of that individual%s' % (
+                                  plan2['label'], plan['label'], q,
+                                  ' (it is a row of the individual requested FIRST)' if first else ''))
 
     # ---- pointwise log-likelihood of the individual likelihood
     if plan['lik'] is not None:
